@@ -171,7 +171,9 @@ func dMismatch(out *vOut, r *vRand, all []dEntryPts) {
 			out.Oracle("mismatch-coerced", pre+"DOther)", fmt.Sprintf("%s (%s) written %v of another kind was accepted; typed value %v", key, tg.kind, w.yaml, tv))
 		}
 		obs := "DOther"
-		if ok {
+		if w.fam == "null" {
+			obs = "DKeep"
+		} else if ok {
 			switch {
 			case w.fam == "null":
 				obs = "DKeep"
